@@ -505,7 +505,7 @@ func runC10(c *Ctx) {
 	}
 	realignTree := AnyOf(CalleeFn(rebuild), CalleeFn(rollbackCl...))
 	addRawRecord := p.Func(al + ":(*aclList).AddRawRecord")
-	setState := p.Func(al + ":(*aclList).setState")
+	setState := p.FuncOpt(al + ":(*aclList).setState") // may have been inlined into its only caller
 	deferredTx := p.Func(ot + ":(*storageDeferredCreation).createStorageAndDoInTx")
 	createStorage := p.FuncOpt(ot + ":(*storageDeferredCreation).createStorage") // may be inlined into its only caller
 	kvSet := p.Func(kv + ":(*storage).Set")
@@ -524,19 +524,15 @@ func runC10(c *Ctx) {
 		}, "rebuildFromStorage(new heads, …) (live tree replaced by one holding unstored changes)", func(cc *ssa.CallCommon) bool {
 			return (CalleeFn(rebuild)(cc) && allArgsNil(cc)) || CalleeFn(rollbackCl...)(cc)
 		}, "rebuildFromStorage(nil, nil, nil) / rollback closure"},
-		{addRawRecord, or(callOf(CalleeFn(setState)), storeTo(p.Field(al+":aclList.records")), func(in ssa.Instruction) bool {
+		{addRawRecord, or(callOf(CalleeFn(setState)), storeTo(p.Field(al+":aclList.records")), storeTo(p.Field(al+":aclList.aclState")), func(in ssa.Instruction) bool {
 			mu, ok := in.(*ssa.MapUpdate)
 			return ok && IsLoadOfField(mu.Map, p.Field(al+":aclList.indexes"))
 		}), "in-memory ACL list mutation (setState / records / indexes)", func(cc *ssa.CallCommon) bool { return false }, "(no realign operation exists: persist before mutating)"},
 	}
 	for _, r := range rules {
 		c.Fn(FuncName(r.fn))
-		var muts []ssa.Instruction
-		Instrs(r.fn, func(in ssa.Instruction) {
-			if r.mut(in) {
-				muts = append(muts, in)
-			}
-		})
+		// (the call of a function new since the anchor snapshot that holds a mutation is a mutation site)
+		muts := InstrSinksX(r.fn, r.mut)
 		construct := FuncName(r.fn) + "|" + r.mutDesc
 		if len(muts) == 0 {
 			c.Violate("C10.M-realign-on-error", construct, p.Pos(r.fn.Pos()), "no mutation site found (rule table out of date)")
